@@ -816,12 +816,12 @@ theorem C07_exec_byval_copy (σ : St) (cur : Act) (rest : List Act) (t at' tf pt
     have := run_evalArgs_pure σ f₀ [arg] [.comp T fsa] [] (f'+2) ⟨harg, trivial⟩
       (by simp only [List.length_cons, List.length_nil]; omega)
     simpa using this
-  have hbind : (bindParams (f'+2) t pd.params [arg] [.comp T fsa] []).run.run (setSwitch σ cur.id t) =
-      (.ok [byvalSlot pn (.comp T) (.comp T fsa)], setSwitch σ cur.id t) := by
+  have hbind : (bindParams (f'+2) t pd.params [arg] [.comp T fsa] []).run.run σ =
+      (.ok [byvalSlot pn (.comp T) (.comp T fsa)], σ) := by
     rw [hparams, run_bindParams_byval, if_pos (show (implicitCast (.comp T) (.comp T fsa)).ty = .comp T from rfl),
       run_bindParams_done]
     rfl
-  rw [run_callProc (f'+2) t name [arg] σ σ (setSwitch σ cur.id t) pd [.comp T fsa] cur rest
+  rw [run_callProc (f'+2) t name [arg] σ σ σ pd [.comp T fsa] cur rest
     [byvalSlot pn (.comp T) (.comp T fsa)] hpd hargs (by rw [hparams]; rfl) hdepth hacts hbind, hbody]
   have hσb : calleeSt (procAct pd [byvalSlot pn (.comp T) (.comp T fsa)]) (setSwitch σ cur.id t) =
       C07.byvalBodySt σ cur.id t pd pn T (.comp T fsa) := rfl
@@ -882,12 +882,12 @@ theorem C07_exec_byval_copy_any_path (σ : St) (cur : Act) (rest : List Act) (t 
     have := run_evalArgs_pure σ g₀ [arg] [.comp T fsa] [] (f'+2) ⟨harg, trivial⟩
       (by simp only [List.length_cons, List.length_nil]; omega)
     simpa using this
-  have hbind : (bindParams (f'+2) t pd.params [arg] [.comp T fsa] []).run.run (setSwitch σ cur.id t) =
-      (.ok [byvalSlot pn (.comp T) (.comp T fsa)], setSwitch σ cur.id t) := by
+  have hbind : (bindParams (f'+2) t pd.params [arg] [.comp T fsa] []).run.run σ =
+      (.ok [byvalSlot pn (.comp T) (.comp T fsa)], σ) := by
     rw [hparams, run_bindParams_byval, if_pos (show (implicitCast (.comp T) (.comp T fsa)).ty = .comp T from rfl),
       run_bindParams_done]
     rfl
-  rw [run_callProc (f'+2) t name [arg] σ σ (setSwitch σ cur.id t) pd [.comp T fsa] cur rest
+  rw [run_callProc (f'+2) t name [arg] σ σ σ pd [.comp T fsa] cur rest
     [byvalSlot pn (.comp T) (.comp T fsa)] hpd hargs (by rw [hparams]; rfl) hdepth hacts hbind, hbody]
   have hσb : calleeSt (procAct pd [byvalSlot pn (.comp T) (.comp T fsa)]) (setSwitch σ cur.id t) =
       C07.byvalBodySt σ cur.id t pd pn T (.comp T fsa) := rfl
@@ -981,10 +981,10 @@ theorem C07_exec_return_copy (σ : St) (cur : Act) (rest : List Act) (tA bt t rt
   have hargs : (evalArgs f' [] []).run.run σ = (.ok [], σ) := by
     obtain ⟨f'', rfl⟩ : ∃ f'', f' = f'' + 1 := ⟨f' - 1, by omega⟩
     rw [evalArgs_nil]; rfl
-  have hbind : (bindParams f' t fd.params [] [] []).run.run (setSwitch σ cur.id t) = (.ok [], setSwitch σ cur.id t) := by
+  have hbind : (bindParams f' t fd.params [] [] []).run.run σ = (.ok [], σ) := by
     obtain ⟨f'', rfl⟩ : ∃ f'', f' = f'' + 1 := ⟨f' - 1, by omega⟩
     rw [hparams, run_bindParams_done]; rfl
-  have hcall := C04_exec_function_return_stmt f₀ f' t rt e [] σ σ (setSwitch σ cur.id t) fd defTok [] cur rest [] v hfd hbody
+  have hcall := C04_exec_function_return_stmt f₀ f' t rt e [] σ σ σ fd defTok [] cur rest [] v hfd hbody
     hargs (by rw [hparams]; rfl) hdepth hacts hbind hsteps he (by rw [hret, implicitCast_comp]; exact hv) (by omega)
   rw [hret, implicitCast_comp] at hcall
   have heval : (evalExpr (f'+2) (.call t [])).run.run σ = (.ok v, C07.afterCallSt σ cur.id t) := by
